@@ -50,7 +50,7 @@ func randomCfg(prop string, f *evid.Flags, idx int) (*dCfg, *rng.R) {
 		}
 	}
 	c.SlowW = r.Intn(3)
-	c.Pad = []int{0, 0, 0, 1, 2}[r.Intn(5)]
+	c.Pad = []int{0, 0, 0, 1, 2, 3}[r.Intn(6)]
 	c.FaultW = []int{0, 0, 0, 1, 2}[r.Intn(5)]
 	switch prop {
 	case "C10":
@@ -74,6 +74,9 @@ func randomCfg(prop string, f *evid.Flags, idx int) (*dCfg, *rng.R) {
 	c.Procs = []int{0, 0, 0, 0, 1, 2}[r.Intn(6)]
 	if idx%8 == 5 {
 		c.EmptyAt = 1 + (idx/8)%c.W // one zero-length message somewhere in producer 0's sequence
+	}
+	if idx%32 == 17 {
+		c.Poll = time.Duration(1 + idx/32%9) // a poll interval of a few nanoseconds
 	}
 	if idx%16 == 9 {
 		c.W = 0 // nothing is ever written: Close must return all the same
@@ -717,6 +720,10 @@ func judgeC12(out *evid.Out, r *dRun) {
 		}
 		viol(sig, fmt.Sprintf("after every Write had returned, with no further Write or Close, the consumer stopped at readIndex %d (%s) while positions up to %d were claimed: delivered %d, reported %d of %d written; consumer %s",
 			readIndexAtStall(r), r.StallState, r.maxClaimed, del, al, ret, firstLines(r.StallDump, 4)))
+	case "spinning":
+		_, ret, del, al := r.counts()
+		viol("consumer-spins-without-polling", fmt.Sprintf("after every Write had returned, with Close not yet called, the polling consumer was runnable or running inside the poller for 400 consecutive looks (each after a 100 us pause of the observer) without one poll or delivery while positions up to %d were claimed (reached %d): delivered %d, reported %d of %d written; consumer %s",
+			r.maxClaimed, readIndexAtStall(r), del, al, ret, firstLines(r.StallDump, 4)))
 	case "exited":
 		_, ret, del, al := r.counts()
 		viol("consumer-exited-with-work-pending", fmt.Sprintf("after every Write had returned, with Close not yet called, the consumer goroutine no longer exists while positions up to %d were claimed and the consumer had reached %d: delivered %d, reported %d of %d written - only a Close could still deliver the rest",
